@@ -20,4 +20,4 @@ set, the done gate, guarded haystack reads with the cursor's closed set of defin
 (closures inlined into one expression per implementation), of the packed dispatch, of the Teddy pointer conversion and of Rabin-Karp.
 These hold for every haystack, span and pattern list; the suite samples one span/prefilter combination."""
 NOTE = """Trusted: rustc MIR construction, the fact extractor, memchr's search contracts. perf-literal code is analysed in the configurations that contain it."""
-TECHNIQUE = "static analysis: affine normal forms of index expressions, closure inlining, who-may-write inventories and graph cuts over rustc MIR"
+TECHNIQUE = "static analysis: path summaries tabulated over all orderings of span / length quantities (set_span, packed dispatch, Rabin-Karp windows), affine normal forms, who-may-write inventories and graph cuts over rustc MIR"
